@@ -78,6 +78,8 @@ def replay_events_graph(ctx, maxops):
         try:
             for l in paths[a]:
                 step(w, l)
+                project(w)          # every event is FIRED on every manager after every operation: firing is an observation,
+                                    # it leaves the tables as they are (SpyneEvents: no action for it)
             step(w, label)
             got = project(w)
         except Exception as e:
